@@ -17,6 +17,9 @@ event stream of the real code exactly and replays the labels below on `step`.
   per-thread helper pointer `thr t` (`URCU_TLS(thread_call_rcu_data)`), per-CPU array `percpu`
   (`arr` = allocated), `dflt` = `default_call_rcu_data`, `mutex` = `call_rcu_mutex`,
   `list` = `call_rcu_data_list` (same order as the C list: `cds_list_add` = cons);
+* qsbr (`Cfg.qsbr`): the helper's thread is online – an open section – from the top of its loop to its
+  `rcu_thread_offline()` after the STOP check, offline during its own `synchronize_rcu()`, while it
+  sleeps / polls, while paused and after it has unregistered;
 * the grace period is the abstract `GpSpec`: `hGpEnd`/`syncEnd` are enabled only when every
   read-side section that began before the corresponding start has ended;
 * `call_rcu()` takes the read-side lock (`crCall`), selects the helper (`crSel*`, `gd*` =
@@ -40,6 +43,10 @@ namespace UrcuVerif.CallRcu
 structure Cfg where
   n : Nat          -- user thread ids are `t < n`; helper `h` runs on thread `n + h`
   ncpu : Nat       -- length of the per-CPU array (`cpus_array_len`)
+  /-- QSBR flavor: `rcu_register_thread` / `rcu_thread_online` / `rcu_thread_offline` of the helper threads are not
+  no-ops: a registered online thread is an open read-side section since its last quiescent state (it blocks every
+  grace period that starts later), so the helper's thread is "inside a section" exactly while it is online -/
+  qsbr : Bool := false
   deriving Repr
 
 /-- ghost: where a user callback is -/
@@ -277,6 +284,19 @@ def lockS (s : State) (t : Nat) : State :=
 def unlockS (s : State) (t : Nat) : State :=
   { s with nest := upd s.nest t (s.nest t - 1),
            clock := s.clock + 1 }
+
+/-- qsbr: the thread of helper `h` goes online (`rcu_register_thread`, `rcu_thread_online`, return of its own
+`synchronize_rcu`) – `nest` / `cs` of thread `c.n + h` as for `rcu_read_lock()`; an identity update in the other
+flavors.  (Always an `upd` with a value computed once: a function-valued `if` would make the compiled `step`
+re-evaluate the old function on every look-up.) -/
+@[macro_inline] def nestOn (c : Cfg) (s : State) (h : Nat) : Nat → Nat :=
+  upd s.nest (c.n + h) (if c.qsbr = true then s.nest (c.n + h) + 1 else s.nest (c.n + h))
+@[macro_inline] def csOn (c : Cfg) (s : State) (h : Nat) : Nat → Nat :=
+  upd s.cs (c.n + h) (if c.qsbr = true ∧ s.nest (c.n + h) = 0 then s.clock else s.cs (c.n + h))
+/-- qsbr: the thread of helper `h` goes offline (`rcu_thread_offline`, `rcu_unregister_thread`, entry of its own
+`synchronize_rcu`) -/
+@[macro_inline] def nestOff (c : Cfg) (s : State) (h : Nat) : Nat → Nat :=
+  upd s.nest (c.n + h) (if c.qsbr = true then s.nest (c.n + h) - 1 else s.nest (c.n + h))
 
 /-- `call_rcu_data_init()`: new helper `nextH`, first in `call_rcu_data_list`, thread spawned -/
 def newHelper (s : State) (rt : Bool) : State :=
@@ -538,12 +558,20 @@ def step (c : Cfg) (s : State) : Label → Option State
   | .hDec0 h =>
     if s.hpc h = .dec0 then some { s with hpc := upd s.hpc h .top, futex := upd s.futex h (s.futex h - 1), clock := s.clock + 1 } else none
   | .hTop h =>
-    if s.hpc h = .top then some { s with hpc := upd s.hpc h (if s.pause h then .pausing else .splice), clock := s.clock + 1 } else none
+    -- top of the loop; qsbr: the helper is online here (after `rcu_register_thread()` / `rcu_thread_online()`)
+    if s.hpc h = .top then
+      some { s with hpc := upd s.hpc h (if s.pause h then .pausing else .splice),
+                    nest := upd s.nest (c.n + h) (if c.qsbr = true ∧ s.nest (c.n + h) = 0 then 1 else s.nest (c.n + h)),
+                    cs := csOn c s h, clock := s.clock + 1 }
+    else none
   | .hPause h =>
-    if s.hpc h = .pausing then some { s with hpc := upd s.hpc h .paused, paused := upd s.paused h true, clock := s.clock + 1 } else none
+    if s.hpc h = .pausing then
+      some { s with hpc := upd s.hpc h .paused, paused := upd s.paused h true, nest := nestOff c s h, clock := s.clock + 1 }
+    else none
   | .hUnpause h =>
     if s.hpc h = .paused ∧ s.pause h = false then
-      some { s with hpc := upd s.hpc h .splice, paused := upd s.paused h false, clock := s.clock + 1 }
+      some { s with hpc := upd s.hpc h .splice, paused := upd s.paused h false, nest := nestOn c s h, cs := csOn c s h,
+                    clock := s.clock + 1 }
     else none
   | .hSplice h =>
     if s.hpc h = .splice then
@@ -551,11 +579,12 @@ def step (c : Cfg) (s : State) : Label → Option State
       else
         some { s with hpc := upd s.hpc h .gp, batch := upd s.batch h (s.queue h), queue := upd s.queue h [],
                       loc := relocate s.loc (.queue h) (.batch h), hgp := upd s.hgp h s.clock,
-                      cnt := upd s.cnt h 0, clock := s.clock + 1 }
+                      cnt := upd s.cnt h 0, nest := nestOff c s h, clock := s.clock + 1 }
     else none
   | .hGpEnd h =>
     if s.hpc h = .gp ∧ gpMayEnd c s (s.hgp h) then
-      some { s with hpc := upd s.hpc h .inv, gpDone := max s.gpDone (s.hgp h), clock := s.clock + 1 }
+      some { s with hpc := upd s.hpc h .inv, gpDone := max s.gpDone (s.hgp h), nest := nestOn c s h, cs := csOn c s h,
+                    clock := s.clock + 1 }
     else none
   | .hRunBegin h cb =>
     -- `cb` must be the first callback of the batch (`__cds_wfcq_for_each_blocking_safe` order)
@@ -580,8 +609,11 @@ def step (c : Cfg) (s : State) : Label → Option State
     else none
   | .hStopChk h =>
     if s.hpc h = .stopchk then
+      -- not stopping: `rcu_thread_offline()` before the emptiness check / the sleep / the poll
       some { s with hpc := upd s.hpc h (if s.stop h then (if s.rt h then .exitOr else .exitSt)
-                                         else (if s.rt h then .pollN else .emptychk)), clock := s.clock + 1 }
+                                         else (if s.rt h then .pollN else .emptychk)),
+                    nest := upd s.nest (c.n + h) (if c.qsbr = true ∧ s.stop h = false then s.nest (c.n + h) - 1 else s.nest (c.n + h)),
+                    clock := s.clock + 1 }
     else none
   | .hEmptyChk h =>
     if s.hpc h = .emptychk then
@@ -610,7 +642,9 @@ def step (c : Cfg) (s : State) : Label → Option State
   | .hExitSt h =>
     if s.hpc h = .exitSt then some { s with hpc := upd s.hpc h .exitOr, futex := upd s.futex h 0, clock := s.clock + 1 } else none
   | .hExitOr h =>
-    if s.hpc h = .exitOr then some { s with hpc := upd s.hpc h .dead, stopped := upd s.stopped h true, clock := s.clock + 1 } else none
+    if s.hpc h = .exitOr then
+      some { s with hpc := upd s.hpc h .dead, stopped := upd s.stopped h true, nest := nestOff c s h, clock := s.clock + 1 }
+    else none
   -- ---------------------------------------------------------------- hooks for outer layers
   | .extBegin t =>
     if userCtx c s t = true ∧ s.tpc t = .idle then some { s with tpc := upd s.tpc t .ext, clock := s.clock + 1 } else none
